@@ -169,7 +169,7 @@ func (r *bungeeCordMessageResponder) prepareForwardMessage(in io.Reader) (forwar
 		return
 	}
 	messageLen, err := util.ReadInt16(in)
-	if err != nil {
+	if err != nil || messageLen < 0 {
 		return
 	}
 	msg := make([]byte, messageLen)
@@ -209,6 +209,9 @@ func (r *bungeeCordMessageResponder) processForwardToServer(in io.Reader) {
 		return
 	}
 	forward := r.prepareForwardMessage(in)
+	if forward == nil {
+		return // malformed payload: nothing to forward
+	}
 	if strings.EqualFold(target, "ALL") || strings.EqualFold(target, "ONLINE") {
 		var currentUserServer string
 		if s := r.ConnectedServer(); s != nil {
